@@ -18,6 +18,9 @@ def run(tier):
         raw = os.path.join(d, "raw_%s.ndjson" % profile)
         C.gen_cases(cnt, C.seed() * 1000 + k, raw, profile)
         run.add_batch("c01_" + profile, raw)
+    # shaped programs of the scoped-variable and scan checks (inheritance chains, same-range nodes, tying scan arms)
+    import checks.c04 as c04
+    run.add_cases("c01_shaped", c04.shaped_cases(tier, "c01s"))
     run.classify_all()
     return run.V.finish("model_checking", run.coverage(RULE), X.TRUSTED)
 
